@@ -10,7 +10,7 @@
    detecting quiescence without return. *)
 From Coq Require Import List NArith Bool.
 From stdpp Require Import gmap.
-From P9 Require Import Model.Serve Proofs.ServeProofs Proofs.ServeProofs2 Proofs.ServeProofs3 Proofs.ServeProofs4 Proofs.ServeWitness.
+From P9 Require Import Model.Serve Proofs.ServeProofs Proofs.ServeProofs2 Proofs.ServeProofs3 Proofs.ServeProofs4 Proofs.ServeProofs5 Proofs.ServeWitness.
 Import ListNotations.
 Open Scope N_scope.
 
@@ -45,6 +45,20 @@ Theorem C11_gone_stable : forall evs s tr, run R init evs = Some (s, tr) ->
   exists h', hs s' !! rid = Some h' /\ h_st h' = HGone.
 Proof. exact ev_gone_stable. Qed.
 Print Assumptions C11_gone_stable.
+
+(* 1e. the variant: [shutdown_measure] = (1 if the loop has not returned) + (handler goroutines that have not
+       left) + (1 if Stop has not run).  Each own shutdown step (EReturn, EGiveUp, EStop) decreases it
+       strictly; once the loop has returned NO event increases it.  So from any fault state serving is over
+       after at most shutdown_measure own steps, given that the Handle calls return (EFinish, the premise). *)
+Theorem C11_variant_decreases : forall s e s' o, step R s e = Some (s', o) -> shutdown_step e ->
+  (shutdown_measure s' < shutdown_measure s)%nat.
+Proof. exact variant_decreases. Qed.
+Print Assumptions C11_variant_decreases.
+
+Theorem C11_variant_monotone : forall s e s' o, step R s e = Some (s', o) -> pc s = PReturned ->
+  (shutdown_measure s' <= shutdown_measure s)%nat.
+Proof. exact variant_monotone. Qed.
+Print Assumptions C11_variant_monotone.
 
 (* 2. cancel-all: once the loop has returned, every handler still in flight has a cancelled context *)
 Theorem C11_cancel_all : forall evs s tr, run R init evs = Some (s, tr) -> In OReturn tr ->
